@@ -578,18 +578,28 @@ def _value(name, dop):
     return f'<PARAM xsi:type="VALUE"><SHORT-NAME>{name}</SHORT-NAME><DOP-REF ID-REF="{dop}"/></PARAM>'
 
 
+def _xml_escape(t):
+    return t.replace("&", "&amp;").replace("<", "&lt;").replace(">", "&gt;")
+
+
 IDENT = "<COMPU-METHOD><CATEGORY>IDENTICAL</CATEGORY></COMPU-METHOD>"
 
 
 def xml_layer(L, kind, services, patterns):
     """L: layer name; kind 'ecu'|'base'; services: [(name, did)]; patterns: list of list of param dicts (cfg format)"""
     dops = (f'<DATA-OBJECT-PROP ID="{L}.u8"><SHORT-NAME>u8</SHORT-NAME>{IDENT}{_dct("A_UINT32", 8)}<PHYSICAL-TYPE BASE-DATA-TYPE="A_UINT32"/></DATA-OBJECT-PROP>'
-            f'<DATA-OBJECT-PROP ID="{L}.bf2"><SHORT-NAME>bf2</SHORT-NAME>{IDENT}{_dct("A_BYTEFIELD", 16)}<PHYSICAL-TYPE BASE-DATA-TYPE="A_BYTEFIELD"/></DATA-OBJECT-PROP>')
+            f'<DATA-OBJECT-PROP ID="{L}.bf2"><SHORT-NAME>bf2</SHORT-NAME>{IDENT}{_dct("A_BYTEFIELD", 16)}<PHYSICAL-TYPE BASE-DATA-TYPE="A_BYTEFIELD"/></DATA-OBJECT-PROP>'
+            # fixed-length ASCII identification texts (blank padded by the ECU)
+            f'<DATA-OBJECT-PROP ID="{L}.a4"><SHORT-NAME>a4</SHORT-NAME>{IDENT}{_dct("A_ASCIISTRING", 32)}<PHYSICAL-TYPE BASE-DATA-TYPE="A_UNICODE2STRING"/></DATA-OBJECT-PROP>'
+            f'<DATA-OBJECT-PROP ID="{L}.a2"><SHORT-NAME>a2</SHORT-NAME>{IDENT}{_dct("A_ASCIISTRING", 16)}<PHYSICAL-TYPE BASE-DATA-TYPE="A_UNICODE2STRING"/></DATA-OBJECT-PROP>')
     dtcdop = (f'<DTC-DOP ID="{L}.dtc"><SHORT-NAME>dtcdop</SHORT-NAME>{_dct("A_UINT32", 24)}<PHYSICAL-TYPE BASE-DATA-TYPE="A_UINT32"/>{IDENT}'
               f'<DTCS><DTC ID="{L}.dtc.k"><SHORT-NAME>known</SHORT-NAME><TROUBLE-CODE>291</TROUBLE-CODE><TEXT>x</TEXT></DTC></DTCS></DTC-DOP>')
     structs = (f'<STRUCTURE ID="{L}.Info"><SHORT-NAME>Info</SHORT-NAME><PARAMS>{_value("type", L + ".u8")}{_value("code", L + ".bf2")}</PARAMS></STRUCTURE>'
-               f'<STRUCTURE ID="{L}.Item"><SHORT-NAME>Item</SHORT-NAME><PARAMS>{_value("type", L + ".u8")}</PARAMS></STRUCTURE>')
-    eopf = f'<END-OF-PDU-FIELD ID="{L}.Items"><SHORT-NAME>Items</SHORT-NAME><BASIC-STRUCTURE-REF ID-REF="{L}.Item"/></END-OF-PDU-FIELD>'
+               f'<STRUCTURE ID="{L}.Item"><SHORT-NAME>Item</SHORT-NAME><PARAMS>{_value("type", L + ".u8")}</PARAMS></STRUCTURE>'
+               f'<STRUCTURE ID="{L}.Sw"><SHORT-NAME>Sw</SHORT-NAME><PARAMS>{_value("ver", L + ".a2")}</PARAMS></STRUCTURE>'
+               f'<STRUCTURE ID="{L}.Tag"><SHORT-NAME>Tag</SHORT-NAME><PARAMS>{_value("t", L + ".a2")}</PARAMS></STRUCTURE>')
+    eopf = (f'<END-OF-PDU-FIELD ID="{L}.Items"><SHORT-NAME>Items</SHORT-NAME><BASIC-STRUCTURE-REF ID-REF="{L}.Item"/></END-OF-PDU-FIELD>'
+            f'<END-OF-PDU-FIELD ID="{L}.Tags"><SHORT-NAME>Tags</SHORT-NAME><BASIC-STRUCTURE-REF ID-REF="{L}.Tag"/></END-OF-PDU-FIELD>')
     ddds = (f'<DIAG-DATA-DICTIONARY-SPEC><DTC-DOPS>{dtcdop}</DTC-DOPS><DATA-OBJECT-PROPS>{dops}</DATA-OBJECT-PROPS>'
             f'<STRUCTURES>{structs}</STRUCTURES><END-OF-PDU-FIELDS>{eopf}</END-OF-PDU-FIELDS></DIAG-DATA-DICTIONARY-SPEC>')
     comms = reqs = poss = negs = ""
@@ -598,8 +608,12 @@ def xml_layer(L, kind, services, patterns):
                   f'<POS-RESPONSE-REFS><POS-RESPONSE-REF ID-REF="{L}.{sn}.pr"/></POS-RESPONSE-REFS>'
                   f'<NEG-RESPONSE-REFS><NEG-RESPONSE-REF ID-REF="{L}.{sn}.nr"/></NEG-RESPONSE-REFS></DIAG-SERVICE>')
         reqs += f'<REQUEST ID="{L}.{sn}.rq"><SHORT-NAME>{sn}_rq</SHORT-NAME><PARAMS>{_const("sid", 0x22)}{_const("did", did)}</PARAMS></REQUEST>'
+        if did >= 3:      # text identification: name (4 characters), sw.ver (2 characters), tags[].t (2 characters each)
+            body = f'{_value("name", L + ".a4")}{_value("sw", L + ".Sw")}{_value("tags", L + ".Tags")}'
+        else:
+            body = f'{_value("id", L + ".u8")}{_value("info", L + ".Info")}{_value("dtc", L + ".dtc")}{_value("items", L + ".Items")}'
         poss += (f'<POS-RESPONSE ID="{L}.{sn}.pr"><SHORT-NAME>{sn}_pr</SHORT-NAME><PARAMS>{_const("sid", 0x62)}{_const("did", did)}'
-                 f'{_value("id", L + ".u8")}{_value("info", L + ".Info")}{_value("dtc", L + ".dtc")}{_value("items", L + ".Items")}</PARAMS></POS-RESPONSE>')
+                 f'{body}</PARAMS></POS-RESPONSE>')
         negs += (f'<NEG-RESPONSE ID="{L}.{sn}.nr"><SHORT-NAME>{sn}_nr</SHORT-NAME><PARAMS>{_const("sid", 0x7F)}{_const("rsid", 0x22)}'
                  f'{_value("nrc", L + ".u8")}</PARAMS></NEG-RESPONSE>')
     gneg = (f'<GLOBAL-NEG-RESPONSE ID="{L}.gnr"><SHORT-NAME>gnr</SHORT-NAME><PARAMS>{_const("sid", 0x7F)}'
@@ -614,7 +628,8 @@ def xml_layer(L, kind, services, patterns):
         phys = ""
         if p["phys"] in (True, False):
             phys = f'<USE-PHYSICAL-ADDRESSING>{"true" if p["phys"] else "false"}</USE-PHYSICAL-ADDRESSING>'
-        return (f'<{tag}><EXPECTED-VALUE>{p["exp"]}</EXPECTED-VALUE><DIAG-COMM-SNREF SHORT-NAME="{p["svc"]}"/>{out}{phys}</{tag}>')
+        # the text is written verbatim (XML-escaped): white space in an EXPECTED-VALUE is part of the value
+        return (f'<{tag}><EXPECTED-VALUE>{_xml_escape(p["exp"])}</EXPECTED-VALUE><DIAG-COMM-SNREF SHORT-NAME="{p["svc"]}"/>{out}{phys}</{tag}>')
 
     if kind == "ecu":
         pats = "".join('<ECU-VARIANT-PATTERN><MATCHING-PARAMETERS>' + "".join(mp_xml(p, "MATCHING-PARAMETER") for p in pat)
@@ -643,6 +658,34 @@ def xml_load(layers):
     db._process_xml_tree(ET.fromstring(xml))
     db.refresh()
     return db, [db.diag_layers[l[0]] for l in layers]
+
+
+def document_patterns(layers):
+    """the matching parameters as they are *written in the ODX document* (cfg format), per layer in the given order.
+    The reference and the model are fed with these, the real matcher with whatever the loader made of them, so that
+    the load path (MatchingParameter.from_et & co.) is inside the checked system."""
+    out = []
+    for (_name, kind, _svcs, patterns) in layers:
+        pats = patterns if kind == "ecu" else patterns[:1]
+        out.append([[{"exp": p["exp"], "svc": p["svc"], "snref": p["snref"], "path": p["path"],
+                      "phys": (None if kind == "ecu" else ("none" if p["phys"] in (None, "none") else p["phys"]))}
+                     for p in pat] for pat in pats])
+    return out
+
+
+def with_document_patterns(cfg, layers):
+    """cfg (from cfg_from_objects) with the patterns replaced by those of the document; also returns the number of
+    matching parameters whose loaded fields differ from the document"""
+    docs = document_patterns(layers)
+    cands, differ = [], 0
+    for v, pats in zip(cfg["cands"], docs):
+        if v["kind"] == "other":
+            cands.append(v)
+            continue
+        if json.dumps(v["patterns"], sort_keys=True) != json.dumps(pats, sort_keys=True):
+            differ += 1
+        cands.append(dict(v, patterns=pats))
+    return dict(cfg, cands=cands), differ
 
 
 def cfg_from_objects(objs, strict, cache, alphabet):
